@@ -125,6 +125,7 @@ func (l *RtpPacketList) Reset() {
 	l.doneSeqFlag = false
 	l.doneSeq = 0
 	l.Head.Next = nil
+	l.Size = 0
 }
 
 func (l *RtpPacketList) DebugString() string {
